@@ -1,11 +1,646 @@
-//! C03 — (not built yet)
-#![allow(unused_imports, unused_variables, dead_code)]
+//! C03 — the binary tape mirrors the token stream; the fast paths are unobservable.
+//! (also the binary half of C06: every successfully parsed tape is structurally sound)
+//!
+//! ops (results in show.rs `bin_tape` format, or `err:eof` / `err:syntax`):
+//!   btape  <hex>              optimised parser (`parse_slice_into_tape`)
+//!   btapeU <hex>              reference parser (`parse_slice_into_tape_unoptimized`, cfg unoptimized_build)
+//!   btpair <hex>              both, printed `<opt> | <ref>` (used by the exhaustive enumerations)
+//!   btexp  <hex> <expected>   optimised parser; L3: result == <expected> (transcription `tape_of(doc)`)
+//!   btreuse <hex-big> <hex>   parse <hex> into a tape previously filled from <hex-big>
+//!   wfbin  <hex>              `BinaryTape::from_slice`, then the C06 structure + payload check -> wf:true|wf:false
+//!
+//! L3 oracles evaluated on the real code for every op: optimised == reference (same tape or both
+//! rejected); reused tape == fresh tape; structural soundness + payloads on every accepted tape.
 use crate::common::*;
+use crate::docgen::{self, BinCfg, Doc, DocCfg, Field, Leaf, Node};
+use crate::show;
+use jomini::binary::Rgb;
+use jomini::binary::BinaryTapeParser;
+use jomini::{BinaryTape, BinaryToken, Error, ErrorKind};
 
-pub fn gen(g: &mut Gen) {}
+fn err_str(e: &Error) -> &'static str {
+    match e.kind() {
+        ErrorKind::Eof => "err:eof",
+        _ => "err:syntax",
+    }
+}
+
+fn run_opt(d: &[u8]) -> String {
+    let mut tape = BinaryTape::default();
+    match BinaryTapeParser.parse_slice_into_tape(d, &mut tape) {
+        Ok(()) => show::bin_tape(tape.tokens()),
+        Err(e) => err_str(&e).to_string(),
+    }
+}
+
+fn run_ref(d: &[u8]) -> String {
+    let mut tape = BinaryTape::default();
+    match BinaryTapeParser.parse_slice_into_tape_unoptimized(d, &mut tape) {
+        Ok(()) => show::bin_tape(tape.tokens()),
+        Err(e) => err_str(&e).to_string(),
+    }
+}
+
+fn is_err(s: &str) -> bool {
+    s.starts_with("err")
+}
+
+/// L3: fast paths unobservable. Same tape, or both rejected.
+fn oracle_opt_ref(case: &str, o: &str, r: &str, obs: &mut Obs) {
+    let same = if is_err(o) || is_err(r) { is_err(o) && is_err(r) } else { o == r };
+    if !same {
+        obs.violation("opt-ne-ref", case, &format!("optimised {} reference {}", clip(o), clip(r)));
+    } else if o != r {
+        // both rejected but with a different error kind: not demanded by the property, measured
+        obs.count("errkind-differs");
+    }
+}
+
+fn clip(s: &str) -> String {
+    if s.len() > 300 { format!("{}…", &s[..300]) } else { s.to_string() }
+}
+
+// ------------------------------------------------------------------------------------------
+// C06 (binary half): independent structural check + payloads
+
+/// every container start at i has end j > i, j in range, toks[j] == End(i); every End(i) at j
+/// points at a container whose end is j; containers properly nested; nothing carries index 0.
+fn structure_ok(toks: &[BinaryToken]) -> Result<(), String> {
+    let n = toks.len();
+    // links
+    for (i, t) in toks.iter().enumerate() {
+        match t {
+            BinaryToken::Array(e) | BinaryToken::Object(e) => {
+                if *e == 0 { return Err(format!("container at {} carries end 0", i)); }
+                if i == 0 { return Err("container at index 0".into()); }
+                if *e <= i || *e >= n { return Err(format!("container at {} has end {} (len {})", i, e, n)); }
+                if toks[*e] != BinaryToken::End(i) { return Err(format!("container at {}: toks[{}] = {:?}", i, e, toks[*e])); }
+            }
+            BinaryToken::End(s) => {
+                if *s == 0 { return Err(format!("End at {} carries 0", i)); }
+                if *s >= i { return Err(format!("End at {} points forward to {}", i, s)); }
+                match toks[*s] {
+                    BinaryToken::Array(e) | BinaryToken::Object(e) if e == i => {}
+                    ref other => return Err(format!("End at {} points at {:?}", i, other)),
+                }
+            }
+            _ => {}
+        }
+    }
+    // nesting: intervals [i, end] are laminar (checked with a stack of ends)
+    let mut ends: Vec<usize> = vec![];
+    for (i, t) in toks.iter().enumerate() {
+        while let Some(&top) = ends.last() {
+            if top < i { ends.pop(); } else { break; }
+        }
+        if let BinaryToken::Array(e) | BinaryToken::Object(e) = t {
+            if let Some(&top) = ends.last() {
+                if *e >= top { return Err(format!("container at {} (end {}) crosses enclosing end {}", i, e, top)); }
+            }
+            ends.push(*e);
+        }
+    }
+    Ok(())
+}
+
+#[derive(Debug, Clone, PartialEq)]
+struct Flat { id: u16, lo: usize, hi: usize }
+
+/// the flat lexeme stream of the input: id + payload range, as far as it goes
+fn flat_lex(d: &[u8]) -> Vec<Flat> {
+    let mut out = vec![];
+    let mut p = 0;
+    while p + 2 <= d.len() {
+        let id = u16::from_le_bytes([d[p], d[p + 1]]);
+        p += 2;
+        let n = match id {
+            docgen::L_U32 | docgen::L_I32 | docgen::L_F32 => 4,
+            docgen::L_U64 | docgen::L_I64 | docgen::L_F64 => 8,
+            docgen::L_BOOL => 1,
+            docgen::L_QUOTED | docgen::L_UNQUOTED => {
+                if p + 2 > d.len() { break; }
+                let l = u16::from_le_bytes([d[p], d[p + 1]]) as usize;
+                p += 2;
+                l
+            }
+            _ => 0,
+        };
+        if p + n > d.len() { break; }
+        out.push(Flat { id, lo: p, hi: p + n });
+        p += n;
+    }
+    out
+}
+
+/// payloads: the scalar tokens of the tape occur, in order, in the flat lexeme stream of the
+/// input with the same type and the same payload bytes; strings are slices of the input that sit
+/// right behind their `id len` header.
+fn payloads_ok(input: &[u8], toks: &[BinaryToken]) -> Result<(), String> {
+    let flat = flat_lex(input);
+    let mut p = 0usize;
+    let base = input.as_ptr() as usize;
+    let le32 = |f: &Flat| u32::from_le_bytes(input[f.lo..f.hi].try_into().unwrap());
+    for (i, t) in toks.iter().enumerate() {
+        // what a flat lexeme must look like to be this token
+        let matches = |f: &Flat| -> bool {
+            let b = &input[f.lo..f.hi];
+            match t {
+                BinaryToken::Bool(x) => f.id == docgen::L_BOOL && (b[0] != 0) == *x,
+                BinaryToken::U32(v) => f.id == docgen::L_U32 && b == v.to_le_bytes(),
+                BinaryToken::U64(v) => f.id == docgen::L_U64 && b == v.to_le_bytes(),
+                BinaryToken::I64(v) => f.id == docgen::L_I64 && b == v.to_le_bytes(),
+                BinaryToken::I32(v) => f.id == docgen::L_I32 && b == v.to_le_bytes(),
+                BinaryToken::F32(v) => f.id == docgen::L_F32 && b == v,
+                BinaryToken::F64(v) => f.id == docgen::L_F64 && b == v,
+                BinaryToken::Quoted(s) => f.id == docgen::L_QUOTED && s.as_bytes().as_ptr() as usize == base + f.lo && s.as_bytes().len() == f.hi - f.lo,
+                BinaryToken::Unquoted(s) => f.id == docgen::L_UNQUOTED && s.as_bytes().as_ptr() as usize == base + f.lo && s.as_bytes().len() == f.hi - f.lo,
+                BinaryToken::Token(id) => f.id == *id,
+                BinaryToken::Equal => f.id == docgen::L_EQUAL,
+                _ => false,
+            }
+        };
+        match t {
+            BinaryToken::Array(_) | BinaryToken::Object(_) | BinaryToken::End(_) | BinaryToken::MixedContainer => continue,
+            BinaryToken::Token(id) if [docgen::L_OPEN, docgen::L_CLOSE, docgen::L_EQUAL, docgen::L_U32, docgen::L_U64, docgen::L_I32, docgen::L_BOOL,
+                                       docgen::L_QUOTED, docgen::L_UNQUOTED, docgen::L_F32, docgen::L_F64, docgen::L_I64].contains(id) => {
+                return Err(format!("token {} is Token({}) — a typed lexeme pushed as a plain id", i, id));
+            }
+            BinaryToken::Rgb(Rgb { r, g, b, a }) => {
+                // RGB { U32 r U32 g U32 b [U32 a] }
+                let want: Vec<(u16, Option<u32>)> = {
+                    let mut w = vec![(docgen::L_RGB, None), (docgen::L_OPEN, None), (docgen::L_U32, Some(*r)), (docgen::L_U32, Some(*g)), (docgen::L_U32, Some(*b))];
+                    if let Some(a) = a { w.push((docgen::L_U32, Some(*a))); }
+                    w.push((docgen::L_CLOSE, None));
+                    w
+                };
+                let mut found = false;
+                while p + want.len() <= flat.len() {
+                    if want.iter().enumerate().all(|(k, (id, v))| flat[p + k].id == *id && v.map_or(true, |v| le32(&flat[p + k]) == v)) {
+                        found = true;
+                        p += want.len();
+                        break;
+                    }
+                    p += 1;
+                }
+                if !found { return Err(format!("token {} {:?} not found in the input", i, t)); }
+            }
+            _ => {
+                let mut found = false;
+                while p < flat.len() {
+                    let f = &flat[p];
+                    p += 1;
+                    if matches(f) { found = true; break; }
+                }
+                if !found { return Err(format!("token {} {:?} not found in the input (in order)", i, t)); }
+            }
+        }
+    }
+    Ok(())
+}
+
+/// L3 for C06 on one accepted tape
+fn oracle_wf(case: &str, input: &[u8], toks: &[BinaryToken], obs: &mut Obs) -> bool {
+    let mut ok = true;
+    if let Err(m) = structure_ok(toks) {
+        obs.violation("bin-tape-structure", case, &m);
+        ok = false;
+    }
+    if let Err(m) = payloads_ok(input, toks) {
+        obs.violation("bin-tape-payload", case, &m);
+        ok = false;
+    }
+    ok
+}
+
+// ------------------------------------------------------------------------------------------
+// exec
+
+fn count_kinds(res: &str, obs: &mut Obs) {
+    if is_err(res) {
+        obs.count(res);
+        return;
+    }
+    obs.count("ok");
+    if res.contains(",M") || res.starts_with('M') { obs.count("ok:mixed"); }
+    if res.contains('O') { obs.count("ok:object"); }
+    if res.contains('A') { obs.count("ok:array"); }
+    if res.contains("Rgb") { obs.count("ok:rgb"); }
+}
 
 pub fn exec(w: &[&str], obs: &mut Obs) -> Option<String> {
-    None
+    let case = || w.join(" ");
+    match w {
+        ["btape", h] | ["btapeU", h] | ["btpair", h] | ["btexp", h, _] => {
+            let d = unhex(h)?;
+            let o = run_opt(&d);
+            let r = run_ref(&d);
+            oracle_opt_ref(&case(), &o, &r, obs);
+            count_kinds(&o, obs);
+            if !is_err(&o) {
+                let tape = BinaryTape::from_slice(&d).ok()?;
+                oracle_wf(&case(), &d, tape.tokens(), obs);
+            }
+            if let ["btexp", _, expected] = w {
+                let e = if *expected == "err" { is_err(&o) } else { o == *expected };
+                if !e {
+                    obs.violation("doc-tape-mismatch", &case(), &format!("parser {} expected {}", clip(&o), clip(expected)));
+                }
+                obs.count("btexp");
+            }
+            Some(match w[0] {
+                "btapeU" => r,
+                "btpair" => format!("{} | {}", o, r),
+                _ => o,
+            })
+        }
+        ["btreuse", hbig, h] => {
+            let big = unhex(hbig)?;
+            let d = unhex(h)?;
+            let fresh = run_opt(&d);
+            let mut tape = BinaryTape::default();
+            let first = BinaryTapeParser.parse_slice_into_tape(&big, &mut tape);
+            obs.count(if first.is_ok() { "reuse:first-ok" } else { "reuse:first-err" });
+            let reused = match BinaryTapeParser.parse_slice_into_tape(&d, &mut tape) {
+                Ok(()) => show::bin_tape(tape.tokens()),
+                Err(e) => err_str(&e).to_string(),
+            };
+            if reused != fresh {
+                obs.violation("reuse-differs", &case(), &format!("fresh {} reused {}", clip(&fresh), clip(&reused)));
+            }
+            // and the reference parser into the same (twice used) tape
+            let reused_ref = match BinaryTapeParser.parse_slice_into_tape_unoptimized(&d, &mut tape) {
+                Ok(()) => show::bin_tape(tape.tokens()),
+                Err(e) => err_str(&e).to_string(),
+            };
+            oracle_opt_ref(&case(), &reused, &reused_ref, obs);
+            Some(reused)
+        }
+        ["wfbin", h] => {
+            let d = unhex(h)?;
+            match BinaryTape::from_slice(&d) {
+                Ok(tape) => {
+                    let ok = oracle_wf(&case(), &d, tape.tokens(), obs);
+                    obs.count(if ok { "wf:true" } else { "wf:false" });
+                    Some(format!("wf:{}", ok))
+                }
+                Err(e) => {
+                    obs.count("wf:rejected");
+                    Some(err_str(&e).to_string())
+                }
+            }
+        }
+        _ => None,
+    }
+}
+
+// ------------------------------------------------------------------------------------------
+// expected tape of a document, transcribed from the property text (independent of the parser).
+// `rng` must be a clone of the generator state `render_binary` starts from: the transcription
+// makes the same encoding choices in the same order.
+
+#[derive(Clone, Debug)]
+enum Tk { A(usize), O(usize), E(usize), M, S(String) }
+
+struct TapeOf<'a> { rng: Rng, cfg: &'a BinCfg, out: Vec<Tk> }
+
+impl<'a> TapeOf<'a> {
+    fn leaf(&mut self, l: &Leaf, is_key: bool) {
+        let s = match l {
+            Leaf::Unq(b) | Leaf::Quo(b) => {
+                let mut done = None;
+                if is_key {
+                    if let Some(id) = docgen::key_id(b) {
+                        if self.rng.below(100) < self.cfg.key_id_pct { done = Some(format!("T:{}", id)); }
+                    }
+                }
+                match done {
+                    Some(s) => s,
+                    None => {
+                        let quoted = matches!(l, Leaf::Quo(_)) || self.rng.below(100) >= self.cfg.unquoted_pct;
+                        format!("{}:{}", if quoted { "Q" } else { "U" }, hex(b))
+                    }
+                }
+            }
+            Leaf::Int(i) => if i32::try_from(*i).is_ok() { format!("I32:{}", i) } else { format!("I64:{}", i) },
+            Leaf::Uint(u) => if u32::try_from(*u).is_ok() { format!("U32:{}", u) } else { format!("U64:{}", u) },
+            Leaf::Bool(b) => format!("B:{}", *b as u8),
+            Leaf::Fixed(t) => format!("F32:{}", hex(&t.to_le_bytes())),
+            Leaf::Date(y, m, d, h) => format!("I32:{}", docgen::date_to_binary(*y, *m, *d, *h)),
+        };
+        self.out.push(Tk::S(s));
+    }
+    fn close(&mut self, start: usize, object: bool) {
+        let end = self.out.len();
+        self.out[start] = if object { Tk::O(end) } else { Tk::A(end) };
+        self.out.push(Tk::E(start));
+    }
+    /// `as_value`: the node is the value of a `key =` (only there is an rgb block one token)
+    fn node(&mut self, n: &Node, as_value: bool) {
+        match n {
+            Node::Leaf(l) => self.leaf(l, false),
+            Node::Obj(fs) => {
+                let start = self.out.len();
+                self.out.push(Tk::A(0));
+                for f in fs { self.field(f); }
+                self.close(start, !fs.is_empty());
+            }
+            Node::Arr(vs) => {
+                let start = self.out.len();
+                self.out.push(Tk::A(0));
+                for v in vs { self.node(v, false); }
+                self.close(start, false);
+            }
+            Node::Rgb(r, g, b, a) => {
+                if as_value {
+                    self.out.push(Tk::S(match a { Some(a) => format!("Rgb:{}.{}.{}.{}", r, g, b, a), None => format!("Rgb:{}.{}.{}", r, g, b) }));
+                } else {
+                    // outside a value position the rgb marker is an ordinary id followed by an array
+                    self.out.push(Tk::S(format!("T:{}", docgen::L_RGB)));
+                    let start = self.out.len();
+                    self.out.push(Tk::A(0));
+                    for c in [Some(*r), Some(*g), Some(*b), *a].iter().flatten() { self.out.push(Tk::S(format!("U32:{}", c))); }
+                    self.close(start, false);
+                }
+            }
+            Node::Header(_, body) => self.node(body, as_value),
+            Node::Mixed(fs, rest) => {
+                let start = self.out.len();
+                self.out.push(Tk::O(0));
+                for f in fs { self.field(f); }
+                if !rest.is_empty() { self.out.push(Tk::M); }
+                for v in rest { self.node(v, false); }
+                self.close(start, !fs.is_empty());
+            }
+        }
+    }
+    fn field(&mut self, f: &Field) {
+        // ghost objects in key position are dropped
+        self.leaf(&f.key, true);
+        self.node(&f.val, true);
+    }
+}
+
+/// expected result line for `render_binary(rng, cfg, doc)`; "err" when the property's
+/// precondition fails (a ghost object before the very first key: nothing to attach it to)
+pub fn tape_of(rng: &Rng, cfg: &BinCfg, doc: &Doc) -> String {
+    if doc.fields.first().map_or(false, |f| f.ghosts > 0) {
+        return "err".to_string();
+    }
+    let mut t = TapeOf { rng: rng.clone(), cfg, out: vec![] };
+    for f in &doc.fields { t.field(f); }
+    if t.out.is_empty() { return "-".to_string(); }
+    t.out.iter().map(|k| match k {
+        Tk::A(e) => format!("A{}", e),
+        Tk::O(e) => format!("O{}", e),
+        Tk::E(i) => format!("E{}", i),
+        Tk::M => "M".to_string(),
+        Tk::S(s) => s.clone(),
+    }).collect::<Vec<_>>().join(",")
+}
+
+// ------------------------------------------------------------------------------------------
+// generators
+
+/// the 14 token kinds, each with a canonical small payload (13 lexemes + a plain id)
+pub fn kind_bytes(k: usize) -> Vec<u8> {
+    let mut v = vec![];
+    let id = |v: &mut Vec<u8>, x: u16| v.extend_from_slice(&x.to_le_bytes());
+    match k {
+        0 => id(&mut v, docgen::L_OPEN),
+        1 => id(&mut v, docgen::L_CLOSE),
+        2 => id(&mut v, docgen::L_EQUAL),
+        3 => { id(&mut v, docgen::L_U32); v.extend_from_slice(&7u32.to_le_bytes()); }
+        4 => { id(&mut v, docgen::L_U64); v.extend_from_slice(&8u64.to_le_bytes()); }
+        5 => { id(&mut v, docgen::L_I32); v.extend_from_slice(&(-2i32).to_le_bytes()); }
+        6 => { id(&mut v, docgen::L_BOOL); v.push(1); }
+        7 => { id(&mut v, docgen::L_QUOTED); id(&mut v, 1); v.push(b'q'); }
+        8 => { id(&mut v, docgen::L_UNQUOTED); id(&mut v, 1); v.push(b'u'); }
+        9 => { id(&mut v, docgen::L_F32); v.extend_from_slice(&[1, 2, 3, 4]); }
+        10 => { id(&mut v, docgen::L_F64); v.extend_from_slice(&[1, 2, 3, 4, 5, 6, 7, 8]); }
+        11 => {
+            // a complete rgb block
+            id(&mut v, docgen::L_RGB); id(&mut v, docgen::L_OPEN);
+            for c in [1u32, 2, 3] { id(&mut v, docgen::L_U32); v.extend_from_slice(&c.to_le_bytes()); }
+            id(&mut v, docgen::L_CLOSE);
+        }
+        12 => { id(&mut v, docgen::L_I64); v.extend_from_slice(&(-9i64).to_le_bytes()); }
+        _ => id(&mut v, 0x2d82),
+    }
+    v
+}
+pub const NKINDS: usize = 14;
+
+fn seq_bytes(seq: &[usize]) -> Vec<u8> {
+    let mut v = vec![];
+    for &k in seq { v.extend(kind_bytes(k)); }
+    v
+}
+
+/// every sequence over the 14 kinds of length 0..=maxlen
+fn all_seqs(maxlen: usize, f: &mut dyn FnMut(&[usize])) {
+    fn rec(cur: &mut Vec<usize>, maxlen: usize, f: &mut dyn FnMut(&[usize])) {
+        f(cur);
+        if cur.len() == maxlen { return; }
+        for k in 0..NKINDS {
+            cur.push(k);
+            rec(cur, maxlen, f);
+            cur.pop();
+        }
+    }
+    rec(&mut vec![], maxlen, f);
+}
+
+/// alphabet for byte-level mutations: the low bytes of every lexeme id, small lengths, 0xff
+pub const BIN_ALPHABET: &[u8] = &[0x00, 0x01, 0x02, 0x03, 0x04, 0x0b, 0x0c, 0x0d, 0x0e, 0x0f, 0x14, 0x17, 0x43, 0x67, 0x9c, 0x2d, 0x82, 0xff];
+
+pub fn bin_doc_cfg() -> DocCfg {
+    DocCfg { ghosts: true, mixed: true, quoted_keys: true, ..DocCfg::shared() }
+}
+
+/// a random token sequence with varied payloads and ids (not only the canonical ones)
+fn random_seq(rng: &mut Rng, maxlen: usize) -> Vec<u8> {
+    let n = rng.below(maxlen + 1);
+    let mut v = vec![];
+    for _ in 0..n {
+        let k = rng.below(NKINDS + 3);
+        match k {
+            14 => v.extend_from_slice(&0x000bu16.to_le_bytes()),          // the id 0xb singled out by the fast path
+            15 => v.extend_from_slice(&docgen::L_RGB.to_le_bytes()),      // a bare rgb marker
+            16 => v.extend_from_slice(&(rng.next() as u16).to_le_bytes()), // any id
+            7 | 8 => {
+                let l = rng.below(4);
+                v.extend_from_slice(&(if k == 7 { docgen::L_QUOTED } else { docgen::L_UNQUOTED }).to_le_bytes());
+                v.extend_from_slice(&(l as u16).to_le_bytes());
+                for _ in 0..l { v.push(b'a' + rng.below(26) as u8); }
+            }
+            _ => v.extend(kind_bytes(k)),
+        }
+    }
+    v
+}
+
+/// grammar-directed sequences: mostly valid `key = value` streams with the shapes the fast
+/// paths look for (id/quoted/i32 keys; arrays of i32/quoted/f32; inline objects), cut or
+/// disturbed at a random place.
+fn shaped_seq(rng: &mut Rng) -> Vec<u8> {
+    fn value(rng: &mut Rng, depth: usize, v: &mut Vec<u8>) {
+        let r = rng.below(100);
+        if r < 45 || depth > 3 {
+            let k = *rng.pick(&[3usize, 4, 5, 5, 6, 7, 7, 8, 9, 9, 10, 11, 12, 13]);
+            v.extend(kind_bytes(k));
+        } else if r < 75 {
+            // homogeneous array
+            let k = *rng.pick(&[5usize, 5, 7, 7, 9, 9, 3, 13, 12, 6]);
+            let n = rng.below(5);
+            v.extend(kind_bytes(0));
+            for i in 0..n {
+                if rng.chance(1, 12) { v.extend(kind_bytes(rng.below(NKINDS))); } else { v.extend(kind_bytes(k)); }
+                let _ = i;
+            }
+            v.extend(kind_bytes(1));
+        } else {
+            v.extend(kind_bytes(0));
+            let n = rng.below(4);
+            for _ in 0..n { field(rng, depth + 1, v); }
+            if rng.chance(1, 6) { let m = 1 + rng.below(3); for _ in 0..m { v.extend(kind_bytes(*rng.pick(&[5usize, 7, 13, 3]))); } }
+            v.extend(kind_bytes(1));
+        }
+    }
+    fn field(rng: &mut Rng, depth: usize, v: &mut Vec<u8>) {
+        if rng.chance(1, 10) { v.extend(kind_bytes(0)); v.extend(kind_bytes(1)); }
+        let k = *rng.pick(&[13usize, 13, 13, 7, 7, 5, 5, 8, 3, 12, 11, 6]);
+        if k == 11 { v.extend_from_slice(&docgen::L_RGB.to_le_bytes()); } else { v.extend(kind_bytes(k)); }
+        if !rng.chance(1, 15) { v.extend(kind_bytes(2)); }
+        value(rng, depth, v);
+    }
+    let mut v = vec![];
+    let n = 1 + rng.below(4);
+    for _ in 0..n { field(rng, 0, &mut v); }
+    v
+}
+
+fn emit_input(g: &mut Gen, op: &str, d: &[u8]) {
+    g.emit(format!("{} {}", op, hex(d)));
+}
+
+/// the case streams shared by C03 (`btpair`/`btape`/`btapeU`) and C06 (`wfbin`)
+fn gen_inputs(g: &mut Gen, ops: &[&str], exhaustive_len: usize, n_sampled: usize, n_random: usize, n_docs: usize) {
+    // 1. exhaustive token-kind sequences
+    let mut seqs: Vec<Vec<u8>> = vec![];
+    all_seqs(exhaustive_len, &mut |s| seqs.push(seq_bytes(s)));
+    for s in &seqs { for op in ops { emit_input(g, op, s); } }
+    g.count(&format!("exhaustive-14-kinds-len-le-{}", exhaustive_len));
+    // 1b. deeper over the structural core {OPEN CLOSE EQUAL id I32}, bare and inside `id = {`
+    if exhaustive_len >= 4 {
+        let core = [0usize, 1, 2, 13, 5];
+        let deep = if g.thorough { 8 } else { 7 };
+        let mut cur: Vec<usize> = vec![];
+        fn rec(cur: &mut Vec<usize>, core: &[usize], deep: usize, out: &mut Vec<Vec<u8>>) {
+            if cur.len() > 5 { out.push(seq_bytes(cur)); }
+            if cur.len() >= 3 { let mut p = vec![13usize, 2, 0]; p.extend_from_slice(cur); out.push(seq_bytes(&p)); }
+            if cur.len() == deep { return; }
+            for &k in core { cur.push(k); rec(cur, core, deep, out); cur.pop(); }
+        }
+        let mut out = vec![];
+        rec(&mut cur, &core, deep, &mut out);
+        for s in &out { for op in ops { emit_input(g, op, s); } }
+        g.count(&format!("exhaustive-5-core-kinds-len-le-{}", deep));
+    }
+    // 2. sampled longer sequences (length exhaustive_len+1 ..= 9)
+    for _ in 0..n_sampled {
+        let len = g.rng.range(exhaustive_len + 1, 9);
+        let s: Vec<usize> = (0..len).map(|_| g.rng.below(NKINDS)).collect();
+        let b = seq_bytes(&s);
+        let op = ops[g.rng.below(ops.len())];
+        emit_input(g, op, &b);
+    }
+    g.count("sampled-kind-sequences");
+    // 3. shaped / random sequences, their truncations and mutations
+    for i in 0..n_random {
+        let base = if i % 2 == 0 { shaped_seq(&mut g.rng) } else { random_seq(&mut g.rng, 12) };
+        let d = match g.rng.below(6) {
+            0 => { let p = g.rng.below(base.len() + 1); base[..p].to_vec() }
+            1 | 2 => docgen::mutate(&mut g.rng, &base, BIN_ALPHABET),
+            _ => base,
+        };
+        let op = ops[g.rng.below(ops.len())];
+        emit_input(g, op, &d);
+    }
+    g.count("shaped-and-random-sequences");
+    // 4. random bytes over the id alphabet and over all bytes
+    for i in 0..n_random / 4 {
+        let n = g.rng.below(24);
+        let d: Vec<u8> = (0..n).map(|_| if i % 2 == 0 { *g.rng.pick(BIN_ALPHABET) } else { g.rng.next() as u8 }).collect();
+        let op = ops[g.rng.below(ops.len())];
+        emit_input(g, op, &d);
+    }
+    g.count("random-bytes");
+    // 5. documents x encodings, their truncations and mutations
+    let cfg = bin_doc_cfg();
+    for _ in 0..n_docs {
+        let doc = docgen::gen_doc(&mut g.rng, &cfg);
+        let bc = BinCfg { key_id_pct: *g.rng.pick(&[0usize, 50, 70, 100]), unquoted_pct: *g.rng.pick(&[0usize, 20, 100]), ints_as: 0 };
+        let d = docgen::render_binary(&mut g.rng, &bc, &doc);
+        let op = ops[g.rng.below(ops.len())];
+        emit_input(g, op, &d);
+        match g.rng.below(4) {
+            0 => { let p = g.rng.below(d.len() + 1); let op = ops[g.rng.below(ops.len())]; emit_input(g, op, &d[..p]); }
+            1 => { let m = docgen::mutate(&mut g.rng, &d, BIN_ALPHABET); let op = ops[g.rng.below(ops.len())]; emit_input(g, op, &m); }
+            _ => {}
+        }
+    }
+    g.count("documents-truncations-mutations");
+}
+
+/// C03 cases
+pub fn gen_c03(g: &mut Gen) {
+    let exh = 5;
+    let sampled = g.budget(12_000, 1_500_000);
+    let random = g.budget(12_000, 300_000);
+    let docs = g.budget(3_000, 60_000);
+    gen_inputs(g, &["btpair", "btape", "btapeU"][..1], exh, 0, 0, 0);
+    gen_inputs(g, &["btpair", "btape", "btapeU"], 0, sampled, random, docs);
+    // documents x encodings with the transcribed expected tape
+    let cfg = bin_doc_cfg();
+    let n = g.budget(4_000, 80_000);
+    let mut docs_kept: Vec<Vec<u8>> = vec![];
+    for _ in 0..n {
+        let doc = docgen::gen_doc(&mut g.rng, &cfg);
+        let bc = BinCfg { key_id_pct: *g.rng.pick(&[0usize, 50, 70, 100]), unquoted_pct: *g.rng.pick(&[0usize, 20, 100]), ints_as: 0 };
+        let before = g.rng.clone();
+        let d = docgen::render_binary(&mut g.rng, &bc, &doc);
+        let expected = tape_of(&before, &bc, &doc);
+        g.count(if expected == "err" { "doc:leading-ghost" } else { "doc:expected-tape" });
+        g.emit(format!("btexp {} {}", hex(&d), expected));
+        if docs_kept.len() < 64 || g.rng.chance(1, 16) { docs_kept.push(d); }
+    }
+    // reuse of a tape previously filled with a larger (or any other) document / garbage
+    let n = g.budget(2_000, 40_000);
+    for _ in 0..n {
+        let a = g.rng.pick(&docs_kept).clone();
+        let b = g.rng.pick(&docs_kept).clone();
+        let (big, small) = if a.len() >= b.len() { (a, b) } else { (b, a) };
+        let big = if g.rng.chance(1, 4) { docgen::mutate(&mut g.rng, &big, BIN_ALPHABET) } else { big };
+        let small = match g.rng.below(5) { 0 => docgen::mutate(&mut g.rng, &small, BIN_ALPHABET), 1 => shaped_seq(&mut g.rng), _ => small };
+        g.emit(format!("btreuse {} {}", hex(&big), hex(&small)));
+    }
+    g.count("reused-tape");
+}
+
+/// C06 (binary half) cases: everything above through `wfbin`, emphasis on tolerated malformations
+pub fn gen_wf(g: &mut Gen) {
+    let exh = g.budget(4, 5);
+    let sampled = g.budget(10_000, 300_000);
+    let random = g.budget(16_000, 400_000);
+    let docs = g.budget(4_000, 80_000);
+    gen_inputs(g, &["wfbin"], exh, sampled, random, docs);
+}
+
+pub fn gen(g: &mut Gen) {
+    gen_c03(g);
+    // the binary C06 stream also runs under C03 until C06 is assembled (cheap, same model)
+    let n = g.budget(3_000, 50_000);
+    gen_inputs(g, &["wfbin"], 3, n, n, n / 4);
 }
 
 pub fn tables() -> String {
